@@ -6,6 +6,7 @@ import (
 	"fmt"
 	"hash"
 	"io"
+	"io/ioutil"
 	"math"
 	"os"
 	"path"
@@ -347,7 +348,14 @@ func OpenRockDB(cfg *RockRedisDBConfig) (*RockDB, error) {
 		return nil, errors.New("unsupported ExpirationPolicy")
 	}
 
-	err = db.reOpenEng()
+	if bdir, term, index, ok := db.interruptedRestore(); ok && !cfg.ReadOnly {
+		// the process died while restoreFromPath was replacing the files of the data directory:
+		// what is there now is a mixture the engine may not even open; finish that restore
+		dbLog.Infof("finishing the interrupted restore from checkpoint: %v-%v", bdir, GetCheckpointDir(term, index))
+		err = db.restoreFromPath(bdir, term, index)
+	} else {
+		err = db.reOpenEng()
+	}
 	if err != nil {
 		return nil, err
 	}
@@ -363,6 +371,45 @@ func OpenRockDB(cfg *RockRedisDBConfig) (*RockDB, error) {
 	}()
 
 	return db, nil
+}
+
+// restoreMarkerPath names the file that exists while restoreFromPath replaces the files of the
+// data directory; it records which checkpoint is being restored.
+func (r *RockDB) restoreMarkerPath() string {
+	return path.Join(r.cfg.DataDir, "restoring")
+}
+
+func (r *RockDB) markRestoreBegin(backupDir string, term uint64, index uint64) error {
+	tmp := r.restoreMarkerPath() + ".tmp"
+	f, err := os.OpenFile(tmp, os.O_CREATE|os.O_TRUNC|os.O_WRONLY, common.FILE_PERM)
+	if err != nil {
+		return err
+	}
+	_, err = f.WriteString(backupDir + "\n" + GetCheckpointDir(term, index) + "\n")
+	if err == nil {
+		err = f.Sync()
+	}
+	f.Close()
+	if err != nil {
+		return err
+	}
+	return os.Rename(tmp, r.restoreMarkerPath())
+}
+
+func (r *RockDB) interruptedRestore() (string, uint64, uint64, bool) {
+	d, err := ioutil.ReadFile(r.restoreMarkerPath())
+	if err != nil {
+		return "", 0, 0, false
+	}
+	lines := strings.Split(string(d), "\n")
+	if len(lines) < 2 {
+		return "", 0, 0, false
+	}
+	var term, index uint64
+	if n, err := fmt.Sscanf(lines[1], "%016x-%016x", &term, &index); err != nil || n != 2 {
+		return "", 0, 0, false
+	}
+	return lines[0], term, index, true
 }
 
 func GetBackupDir(base string) string {
@@ -1082,6 +1129,10 @@ func (r *RockDB) restoreFromPath(backupDir string, term uint64, index uint64) er
 		return errors.New("db is quiting")
 	default:
 	}
+	// from here until all files have been copied the data directory is not a usable db
+	if err := r.markRestoreBegin(backupDir, term, index); err != nil {
+		return err
+	}
 	// 1. remove all files in current db except sst files
 	// 2. get the list of sst in checkpoint
 	// 3. remove all the sst files not in the checkpoint list
@@ -1146,6 +1197,7 @@ func (r *RockDB) restoreFromPath(backupDir string, term uint64, index uint64) er
 	}
 
 	verifCrashPoint("rs.copy.after", term, index)
+	os.Remove(r.restoreMarkerPath())
 	err = r.reOpenEng()
 	dbLog.Infof("restore done, cost: %v\n", time.Now().Sub(start))
 	if err != nil {
